@@ -3,6 +3,7 @@
 package drive
 
 import (
+	"github.com/Factom-Asset-Tokens/factom"
 	"database/sql"
 	"bytes"
 	"runtime"
@@ -94,6 +95,23 @@ func Setup() {
 	})
 }
 
+var (
+	ecOnce sync.Once
+	ecStr  string
+)
+
+// ecKey is an entry-credit secret for the node's configuration (send-transaction refuses to run without one).
+func ecKey() string {
+	ecOnce.Do(func() {
+		es, err := factom.GenerateEsAddress()
+		if err != nil {
+			panic("harness: " + err.Error())
+		}
+		ecStr = es.String()
+	})
+	return ecStr
+}
+
 var stdoutOnce sync.Once
 
 // SilenceStdout redirects fd 1 to /dev/null and returns a writer to the original stdout.
@@ -136,6 +154,7 @@ func Open(path string, fk *fake.Node, hooks *sqlw.Hooks, wal bool) (*Daemon, err
 	conf.Set(config.DisableHardForkCheck, DisableHardForkCheck)
 	conf.Set(config.SqliteDBPath, path)
 	conf.Set(config.DBlockSyncRetryPeriod, time.Duration(0))
+	conf.Set(config.ECPrivateKey, ecKey())
 	conf.Set(config.Network, "none")
 	conf.Set(config.Server, "http://fake.invalid/v2")
 	conf.Set(config.SQLDBWalMode, wal)
@@ -225,6 +244,7 @@ func Continue(path string, fk *fake.Node, hooks *sqlw.Hooks, wal bool) (*Daemon,
 	conf := viper.New()
 	conf.Set(config.SqliteDBPath, path)
 	conf.Set(config.DBlockSyncRetryPeriod, time.Duration(0))
+	conf.Set(config.ECPrivateKey, ecKey())
 	conf.Set(config.Network, "none")
 	conf.Set(config.Server, "http://fake.invalid/v2")
 	conf.Set(config.SQLDBWalMode, wal)
